@@ -4,6 +4,7 @@ use std::collections::HashMap;
 use std::ops::{Range, RangeInclusive};
 
 //@include prelude/anyhow.rs
+//@include prelude/tstr_mod.rs
 
 verus! {
 
@@ -64,11 +65,12 @@ impl Op {
         (r matches Ok(p) ==> constraint_of(s@) == Some(p)), // [V4p.post.ok_is_spec]
         (r is Err ==> constraint_of(s@) is None), // [V4p.post.malformed_is_err]
 //@macro rule=E1 name=anyhow to=<<anyhow::verif_err()>>
-//@chain rule=E13 find=<<.strip_prefix(>> to=verif_strip_prefix_str argkind=str count=3
-//@chain rule=E13 find=<<.strip_prefix(>> to=verif_strip_prefix_char argkind=char count=2
-//@edit rule=E13 find=<<num_str.parse()>>
-verif_parse_usize(num_str)
-//@closure rule=E12 find=<<|_|>> params=<<|_e: core::num::ParseIntError|>> ret=<<e2: anyhow::Error>>
+//@chain rule=E13 find=<<.strip_prefix(>> to=verif_strip_prefix_str argkind=str count=all optional=1
+//@chain rule=E13 find=<<.strip_prefix(>> to=verif_strip_prefix_char argkind=char count=all optional=1
+//@edit rule=E13 find=<<$a.parse()>> count=all optional=1
+verif_parse_usize($a)
+//@edit rule=E16 find=<<|_|>> count=all optional=1
+|_e|
 //@end
 
 } // verus!
